@@ -394,7 +394,7 @@ pub fn run(o: &Opts, stats: &mut Stats) -> Option<usize> {
     }
     let n_main = expanded.len();
     if o.replay.is_some() || o.start_cfg < n_main {
-        let r = run_configs(o, stats, &expanded, |c, _| First { inner: C10::new(&Cfg { fam: c.fam }), first: c.first, step_no: 0 }, &move |_c: &Sharded| if thorough { vec![Pass { depth: 4, max_dev: 4 }] } else { vec![Pass { depth: 3, max_dev: 3 }] });
+        let r = run_configs(o, stats, &expanded, |c, _| First { inner: C10::new(&Cfg { fam: c.fam }), first: c.first, step_no: 0 }, &move |_c: &Sharded| if thorough { vec![Pass { depth: 5, max_dev: 5 }] } else { vec![Pass { depth: 3, max_dev: 3 }] });
         if r.is_some() || o.replay.is_some() {
             return r;
         }
